@@ -147,3 +147,6 @@ func (it *Interp) StoreMont(f *Field, c *Cell, v *Poly) {
 
 // Abort stops the analysis of the current path with a reason.
 func (it *Interp) Abort(reason string) { panic(&abort{reason}) }
+
+// LoadAgg returns the content of a cell as an aggregate value (a by-value argument).
+func (it *Interp) LoadAgg(c *Cell) Value { return Agg{it.snapshot(c)} }
